@@ -26,6 +26,10 @@
   Nothing here takes the warning level or the path format as an input except `Diag.run`'s filter
   (`Diag.shown`) — that is the content of C16 for this model (theorems `C16_main_*`).
 
+  Second half of the file: `mainOut` — the same run for EVERY output mode (`-o stats | ir | results |
+  cacheable | silent`) with the target as it was spelled on the command line; the printed documents
+  carry their path fields (`IrDoc.filename`, `CacheDoc.filepath`, …), all equal to that spelling.
+
   Fragment: as `Pipeline` (follow-imports 0, no starred import); an uncaught exception of the
   pipeline is `Except.error` whatever the configuration (under `--strict` the real run may exit at
   an earlier error before it gets there: the harness does not compare such cases).
@@ -58,24 +62,27 @@ structure Staged where
   simpl : List Rattr.Diag
   /-- the document `show_results` prints (`none`: a fatal diagnostic ended the pipeline) -/
   doc : Option ResultsDoc
+  /-- names of the keys of the target's `FileIr` (insertion order) as the file walk left them: the
+  entries of `"target_ir"."ir"."symbols"` of the `-o ir` document (`[]` when the walk did not finish) -/
+  keys : List Str
   deriving Repr
 
 /-- `Pipeline.runWith`, the phases kept apart. `Except.error`: an uncaught exception. -/
 def stagedWith (ord : List CallSym → List CallSym) (env : Env) (mn : Str) (f : Facts) (builtins : List Str)
     (body : List Top) (imp : ImpFacts := []) : Except Str Staged :=
   match RootCtx.compile f builtins body with
-  | .fatal r _ => .ok ⟨r.diags, [], none⟩
+  | .fatal r _ => .ok ⟨r.diags, [], none, []⟩
   | .crash _ e => .error e
   | .ok r =>
     if hasStarred r.ctx then .error "Outside:starred-import".toList
     else
       match FileA.analyseWith env mn f r.ctx body with
-      | .fatal s _ => .ok ⟨r.diags ++ s.diags, [], none⟩
+      | .fatal s _ => .ok ⟨r.diags ++ s.diags, [], none, []⟩
       | .crash _ e => .error e
       | .ok s =>
         match results ord f imp s.ir with
-        | .ok (doc, ds) => .ok ⟨r.diags ++ s.diags, ds, some doc⟩
-        | .fatal ds _ => .ok ⟨r.diags ++ s.diags, ds, none⟩
+        | .ok (doc, ds) => .ok ⟨r.diags ++ s.diags, ds, some doc, s.ir.map (·.1.name)⟩
+        | .fatal ds _ => .ok ⟨r.diags ++ s.diags, ds, none, s.ir.map (·.1.name)⟩
         | .crash e => .error e
 
 def staged (env : Env) (mn : Str) (f : Facts) (builtins : List Str) (body : List Top) (imp : ImpFacts := []) :
@@ -105,5 +112,101 @@ def mainWith (cfg : Diag.Cfg) (ord : List CallSym → List CallSym) (env : Env) 
 def main (cfg : Diag.Cfg) (env : Env) (mn : Str) (f : Facts) (builtins : List Str) (body : List Top)
     (imp : ImpFacts := []) : Except Str Result :=
   mainWith cfg id env mn f builtins body imp
+
+/-! ### every output mode, and the target as it was spelled on the command line
+
+    if config.arguments.stdout == Output.ir:        show_ir(config.arguments.target, file_ir, import_irs)
+    if config.arguments.stdout == Output.results:   show_results(results)
+    if config.arguments.stdout == Output.cacheable: show_cacheable_results(make_cacheable_results(…))
+    if config.arguments.stdout == Output.stats:     show_stats(stats)
+
+`target` is `str(config.arguments.target)`: the command-line argument as `pathlib.Path` prints it
+(relative or absolute, short or deep — NOT resolved, NOT made project-relative, NOT passed through
+`Config.get_formatted_path`). Every field of a printed document that names the target file carries
+exactly this string: `"target_ir"."filename"` (`show_ir`), `"context"."file"` and every
+`"location"."file"` of a symbol defined in the target (`state.current_file`, which `enter_file(target)`
+sets to the same `Path`), `"filepath"` of the cacheable document (`target_ir.context.file`).
+`-H` / `-T` (`Diag.render`) are for diagnostics only; nothing below takes them as an input. -/
+
+/-- `-o` (`rattr.config.Output`). -/
+inductive OutMode
+  | stats | ir | results | cacheable | silent
+  deriving DecidableEq, Repr
+
+def OutMode.name : OutMode → String
+  | .stats => "stats" | .ir => "ir" | .results => "results" | .cacheable => "cacheable" | .silent => "silent"
+
+def OutMode.every : List OutMode := [.stats, .ir, .results, .cacheable, .silent]
+
+/-- The `-o ir` document (`serialise_irs`), its path fields and keys:
+`{"import_irs": {…}, "target_ir": {"filename": …, "ir": {"context": {"file": …}, "symbols": {name:
+{"location": {"file": …}}}}}}`. -/
+structure IrDoc where
+  /-- `"target_ir"."filename"` -/
+  filename : Str
+  /-- `"target_ir"."ir"."context"."file"` -/
+  contextFile : Str
+  /-- `"target_ir"."ir"."symbols"`: one entry per `FileIr` key, (name, its `"location"."file"`) -/
+  symbols : List (Str × Str)
+  /-- keys of `"import_irs"` (`--follow-imports 0`: none) -/
+  importIrs : List Str
+  deriving DecidableEq, Repr
+
+/-- The `-o cacheable` document (`make_cacheable_results`): `"filepath"` and `"results"` (the
+hashes and the `imports` list are functions of file contents and of the module locator, no option
+of this model enters them). -/
+structure CacheDoc where
+  filepath : Str
+  results : ResultsDoc
+  deriving DecidableEq, Repr
+
+/-- The deterministic part of the `-o stats` tables: the badness rows and the `Threshold` row
+(`0` is printed as `∞`). -/
+structure StatsDoc where
+  buckets : Diag.State
+  threshold : Nat
+  deriving DecidableEq, Repr
+
+/-- What `main` writes on stdout. -/
+inductive Printed
+  | stats (d : StatsDoc)
+  | ir (d : IrDoc)
+  | results (d : ResultsDoc)
+  | cacheable (d : CacheDoc)
+  deriving DecidableEq, Repr
+
+def Printed.mode : Printed → OutMode
+  | .stats _ => .stats | .ir _ => .ir | .results _ => .results | .cacheable _ => .cacheable
+
+/-- every field of a printed document that names the target file. -/
+def Printed.paths : Printed → List Str
+  | .ir d => d.filename :: d.contextFile :: d.symbols.map (·.2)
+  | .cacheable d => [d.filepath]
+  | .stats _ => []
+  | .results _ => []
+
+/-- the document of one output mode, for a run that reached the output stage with buckets `s`. -/
+def printedOf (mode : OutMode) (target : Str) (threshold : Nat) (st : Staged) (s : Diag.State) : Option Printed :=
+  match mode with
+  | .silent => none
+  | .stats => some (.stats ⟨s, threshold⟩)
+  | .ir => st.doc.map fun _ => .ir ⟨target, target, st.keys.map fun k => (k, target), []⟩
+  | .results => st.doc.map .results
+  | .cacheable => st.doc.map fun d => .cacheable ⟨target, d⟩
+
+structure OutResult where
+  diag : Diag.Result
+  /-- stdout: the selected document, iff the run reaches the output stage (`none`: nothing printed) -/
+  stdout : Option Printed
+  deriving Repr
+
+/-- `python -m rattr <cfg> -o <mode> --follow-imports 0 <target>` on the staged pipeline result. -/
+def mainOut (mode : OutMode) (target : Str) (cfg : Diag.Cfg) (st : Staged) : OutResult :=
+  let r := Diag.run cfg (events st)
+  ⟨r, if r.output then printedOf mode target cfg.threshold st r.state else none⟩
+
+def mainOutWith (mode : OutMode) (target : Str) (cfg : Diag.Cfg) (ord : List CallSym → List CallSym) (env : Env)
+    (mn : Str) (f : Facts) (builtins : List Str) (body : List Top) (imp : ImpFacts := []) : Except Str OutResult :=
+  (stagedWith ord env mn f builtins body imp).map (mainOut mode target cfg)
 
 end Rattr.MainRun
